@@ -90,6 +90,27 @@ def unfoldOut (S : Spec) : Spec :=
 def unfoldSpec (S : Spec) : Res :=
   if unfold_raises S.folded then .raise unfold_raisesWhat else .ok (unfoldOut S)
 
+/-! ### what `fold` / `unfold` leave behind in the spectrum they were called on
+
+`fold_selfDataAfter` / `fold_selfMaskAfter` (generated) are the content of `self.data` / `self.mask` when the method
+returns: the translator follows local names bound to `self.mask` / `self.data` (numpy views of the caller's buffers) and
+turns every in-place statement through them (`|=`, `+=`, masked stores) into an update of this state; a store into any
+other attribute of `self` is a translation error.  A method that raises has not executed any of them. -/
+
+/-- the spectrum `S.fold()` was called on, afterwards -/
+def foldSelfAfter (S : Spec) : Spec :=
+  if fold_raises S.folded then S else
+  { S with
+    data := tabulate S.N fun k => fold_selfDataAfter (mirrorFlat S.N) (totalFlat S.shape) (totalSamples S.shape) S.x S.m k
+    mask := tabulate S.N fun k => fold_selfMaskAfter (mirrorFlat S.N) (totalFlat S.shape) (totalSamples S.shape) S.x S.m k }
+
+/-- the spectrum `S.unfold()` was called on, afterwards -/
+def unfoldSelfAfter (S : Spec) : Spec :=
+  if unfold_raises S.folded then S else
+  { S with
+    data := tabulate S.N fun k => unfold_selfDataAfter (mirrorFlat S.N) (totalFlat S.shape) (totalSamples S.shape) S.x S.m k
+    mask := tabulate S.N fun k => unfold_selfMaskAfter (mirrorFlat S.N) (totalFlat S.shape) (totalSamples S.shape) S.x S.m k }
+
 /-! ### arithmetic templates -/
 
 inductive Operand where
